@@ -138,6 +138,19 @@ Theorem C12_match_keeps_order : forall C O sys req l,
 Proof. exact match_generic_sorted. Qed.
 Print Assumptions C12_match_keeps_order.
 
+(* the comparator of sortNPMVersions over the mixture of parsable and unparsable strings is
+   lawful as soon as the semver Compare is lawful on the parsable ones: nothing is assumed
+   about unparsable strings *)
+Theorem C12_npm_comparator_laws : forall O,
+  cmp_laws (npm_parses O) (o_compare O sys_npm) ->
+  cmp_laws (fun _ : version => True) (npm_cmp O) /\
+  (forall a b, npm_less O a b = (npm_cmp O a b <? 0)%Z) /\
+  (forall a b, npm_cmp O a b = 0%Z -> ver a = ver b).
+Proof.
+  intros O HL. split; [exact (npm_cmp_laws O HL)|]. split; [exact (npm_less_cmp O) | exact (npm_cmp_eq0 O)].
+Qed.
+Print Assumptions C12_npm_comparator_laws.
+
 (* ---------- permutation invariance ---------- *)
 (* npm: the comparator (semver, then spelling) separates distinct strings *)
 Theorem C12_perm_npm : forall C O rk l l',
@@ -285,6 +298,16 @@ Theorem C12_perm_raw_repaired_example :
   match_requirement cfg_repaired all_oracle w_req [w_m2; w_m1] = [w_m2; w_m1].
 Proof. exact match_raw_repaired. Qed.
 Print Assumptions C12_perm_raw_repaired_example.
+
+(* the hypothesis NoDup (map ver l) of the permutation theorems cannot be dropped: a list that
+   holds one version string twice with different attributes comes back in its input order
+   even from the repaired code (F-C12-3, open) *)
+Theorem C12_perm_repeated_string_refuted :
+  Permutation [w_r1; w_r2] [w_r2; w_r1] /\ ver w_r1 = ver w_r2 /\ w_r1 <> w_r2 /\
+  sort_versions cfg_repaired all_oracle [w_r1; w_r2] = [w_r1; w_r2] /\
+  sort_versions cfg_repaired all_oracle [w_r2; w_r1] = [w_r2; w_r1].
+Proof. exact repeated_string_witness. Qed.
+Print Assumptions C12_perm_repeated_string_refuted.
 
 (* Non-vacuity: hypotheses satisfiable by non-trivial inputs *)
 Example C12_nonvacuous_npm : forall C,
